@@ -395,6 +395,7 @@ func c07Run(t *testing.T, r *verifsim.Run, mode string) {
 		}
 	}
 	sort.Slice(sigExcluded, func(i, j int) bool { return sigExcluded[i] < sigExcluded[j] })
+	sigSession := "verif-sign-1"
 	msg := new(big.Int).SetBytes(tp.Bytes("message", 32))
 	smv := group.NewMembershipValidator(logger, finalOps, signingChain)
 	sctx, scancel := context.WithCancel(context.Background())
@@ -411,12 +412,56 @@ func c07Run(t *testing.T, r *verifsim.Run, mode string) {
 					m.sigDone = true
 				}
 			}()
-			m.sig, m.sigErr = signing.Execute(sctx, logger, msg, "verif-sign-1", m.signer.signingGroupMemberIndex, m.signer.privateKeyShare,
+			m.sig, m.sigErr = signing.Execute(sctx, logger, msg, sigSession, m.signer.signingGroupMemberIndex, m.signer.privateKeyShare,
 				k, k-cfg.h, append([]group.MemberIndex(nil), sigExcluded...), m.node.Channel("sign"), smv)
 			m.sigDone = true
 		}()
 	}
-	spump := &c07Pump{r: r, tp: tp, sn: sn, nodes: snodes, pending: map[int][]*verifadapt.Envelope{}, channel: "sign", chaos: chaos}
+	// injected traffic during signing: confirmations of the property's "stored
+	// index" clause need hostile traffic too - messages from final-group members
+	// excluded from this signing attempt, messages claiming a signer's seat
+	// from another operator's key, and other-session messages of valid signers
+	byFinal := map[group.MemberIndex]*c07Member{}
+	for _, m := range operating {
+		byFinal[m.signer.signingGroupMemberIndex] = m
+	}
+	sinject := func(e *verifadapt.Envelope) []*verifadapt.Envelope {
+		var out []*verifadapt.Envelope
+		if !injectOn {
+			return nil
+		}
+		if len(sigExcluded) > 0 && tp.Chance("sinject-excluded", 1, 3) {
+			x := sigExcluded[tp.Choose("sinject-excluded-who", len(sigExcluded))]
+			if pl, ok := verifadapt.PBSetVarint(e.Payload, 1, uint64(x)); ok {
+				forgedSeq++
+				out = append(out, &verifadapt.Envelope{From: byFinal[x].node.Index, Channel: e.Channel, Type: e.Type, Payload: pl, Seqno: forgedSeq})
+				r.Fault("signing-message-from-excluded-member")
+			}
+		}
+		if len(signers) > 1 && tp.Chance("sinject-claim", 1, 3) {
+			v := signers[tp.Choose("sinject-claim-victim", len(signers))]
+			a := signers[tp.Choose("sinject-claim-attacker", len(signers))]
+			if a != v && members[e.From] != v {
+				if pl, ok := verifadapt.PBSetVarint(e.Payload, 1, uint64(v.signer.signingGroupMemberIndex)); ok {
+					forgedSeq++
+					out = append(out, &verifadapt.Envelope{From: a.node.Index, Channel: e.Channel, Type: e.Type, Payload: pl, Seqno: forgedSeq})
+					r.Fault("signing-message-claiming-foreign-seat")
+				}
+			}
+		}
+		if tp.Chance("sinject-session", 1, 3) {
+			v := signers[tp.Choose("sinject-session-victim", len(signers))]
+			if pl, ok := verifadapt.PBSetVarint(e.Payload, 1, uint64(v.signer.signingGroupMemberIndex)); ok && members[e.From] != v {
+				if pl2, n := verifadapt.PBReplaceBytes(pl, []byte(sigSession), []byte(sigSession+"-other")); n == 1 {
+					forgedSeq++
+					out = append(out, &verifadapt.Envelope{From: v.node.Index, Channel: e.Channel, Type: e.Type, Payload: pl2, Seqno: forgedSeq})
+					r.Fault("signing-message-from-other-session")
+				}
+			}
+		}
+		return out
+	}
+	spump := &c07Pump{r: r, tp: tp, sn: sn, nodes: snodes, pending: map[int][]*verifadapt.Envelope{}, channel: "sign", chaos: chaos, inject: sinject}
 	sigAll := func() bool {
 		for _, m := range signers {
 			if !m.sigDone {
